@@ -37,6 +37,21 @@ pub fn k_point(b: &[u8]) -> Option<ProjectivePoint> {
 }
 pub fn k_enc(p: &ProjectivePoint) -> Vec<u8> { p.to_bytes().to_vec() }
 
+/// edwards25519 (curve25519-dalek, the `group` impls sl-verifiable-enc is used with): 32-byte compressed Edwards y,
+/// decoded with `GroupEncoding::from_bytes` (accepts non-canonical encodings), scalars reduced mod l (big-endian hex nat)
+pub fn e_point(b: &[u8]) -> Option<curve25519_dalek::EdwardsPoint> {
+    let a: [u8; 32] = b.try_into().ok()?;
+    <curve25519_dalek::EdwardsPoint as GroupEncoding>::from_bytes(&a).into()
+}
+pub fn e_enc(p: &curve25519_dalek::EdwardsPoint) -> Vec<u8> { p.compress().to_bytes().to_vec() }
+pub fn e_scalar(h: &str) -> curve25519_dalek::Scalar {
+    let v = hex::decode(if h.len() % 2 == 1 { format!("0{h}") } else { h.to_string() }).expect("oracle: scalar hex");
+    assert!(v.len() <= 32, "oracle: scalar too long");
+    let mut b = [0u8; 32];
+    for (i, x) in v.iter().rev().enumerate() { b[i] = *x; }
+    Option::from(curve25519_dalek::Scalar::from_canonical_bytes(b)).expect("oracle: scalar not reduced")
+}
+
 pub fn merlin_answer(init: &[u8], ops: &str) -> Vec<u8> {
     let mut t = Transcript::new(intern(init));
     let mut last = vec![];
@@ -64,6 +79,11 @@ pub fn answer_with(q: &str, extra: Extra) -> String {
         "ecadd" if t[1] == "k" => k_enc(&(k_point(&unhex(t[2])).expect("oracle: ecadd invalid") + k_point(&unhex(t[3])).expect("oracle: ecadd invalid"))),
         "ecneg" if t[1] == "k" => k_enc(&(-k_point(&unhex(t[2])).expect("oracle: ecneg invalid"))),
         "ecvalid" if t[1] == "k" => vec![k_point(&unhex(t[2])).is_some() as u8],
+        "ecmulgen" if t[1] == "e" => e_enc(&(curve25519_dalek::constants::ED25519_BASEPOINT_POINT * e_scalar(t[2]))),
+        "ecmul" if t[1] == "e" => e_enc(&(e_point(&unhex(t[2])).expect("oracle: ecmul of an invalid point") * e_scalar(t[3]))),
+        "ecadd" if t[1] == "e" => e_enc(&(e_point(&unhex(t[2])).expect("oracle: ecadd invalid") + e_point(&unhex(t[3])).expect("oracle: ecadd invalid"))),
+        "ecneg" if t[1] == "e" => e_enc(&(-e_point(&unhex(t[2])).expect("oracle: ecneg invalid"))),
+        "ecvalid" if t[1] == "e" => vec![e_point(&unhex(t[2])).is_some() as u8],
         "sha256" => { use sha2::Digest; sha2::Sha256::digest(unhex(t[1])).to_vec() }
         "hmacsha512" => { use hmac::Mac; let mut m = hmac::Hmac::<sha2::Sha512>::new_from_slice(&unhex(t[1])).unwrap(); m.update(&unhex(t[2])); m.finalize().into_bytes().to_vec() }
         "ripemd160" => { use ripemd::Digest; ripemd::Ripemd160::digest(unhex(t[1])).to_vec() }
